@@ -1,0 +1,122 @@
+//! Thin public wrappers around crate-private components, for component-level simulations.
+
+use crate::util::heap::blockpageresource::BlockPool;
+use crate::util::heap::layout::ChunkStateMmapper;
+use crate::util::heap::layout::Mmapper;
+use crate::util::linear_scan::Region;
+use crate::util::os::*;
+use crate::util::Address;
+
+/// A 32 KiB block, identified by its start address.
+#[derive(Clone, Copy, Debug, PartialEq, PartialOrd)]
+pub struct VerifBlock(Address);
+
+impl Region for VerifBlock {
+    const LOG_BYTES: usize = 15;
+    fn from_aligned_address(address: Address) -> Self {
+        debug_assert!(address.is_aligned_to(Self::BYTES));
+        VerifBlock(address)
+    }
+    fn start(&self) -> Address {
+        self.0
+    }
+}
+
+/// Make the calling thread GC worker `ordinal` for `BlockPool::push`.
+pub fn set_worker_ordinal(ordinal: usize) {
+    crate::scheduler::verif_set_current_worker_ordinal(ordinal);
+}
+
+/// The real `BlockPool` over `VerifBlock`s.
+pub struct VerifBlockPool(BlockPool<VerifBlock>);
+
+impl VerifBlockPool {
+    pub fn new(num_workers: usize) -> Self {
+        VerifBlockPool(BlockPool::new(num_workers))
+    }
+    /// Push from the calling worker thread (see `set_worker_ordinal`).
+    pub fn push(&self, block_start: Address) {
+        self.0.push(VerifBlock::from_aligned_address(block_start));
+    }
+    pub fn pop(&self) -> Option<Address> {
+        self.0.pop().map(|b| b.start())
+    }
+    pub fn flush_all(&self) {
+        self.0.flush_all();
+    }
+    pub fn len(&self) -> usize {
+        self.0.len()
+    }
+    pub fn is_empty(&self) -> bool {
+        self.len() == 0
+    }
+    pub fn blocks(&self) -> Vec<Address> {
+        let mut v = Vec::new();
+        self.0.iterate_blocks(&mut |b| v.push(b.start()));
+        v
+    }
+}
+
+/// A private instance of the chunk-state mmapper.
+pub struct VerifMmapper(ChunkStateMmapper);
+
+impl Default for VerifMmapper {
+    fn default() -> Self {
+        Self::new()
+    }
+}
+
+impl VerifMmapper {
+    pub fn new() -> Self {
+        VerifMmapper(ChunkStateMmapper::new())
+    }
+    fn anno() -> MmapAnnotation<'static> {
+        MmapAnnotation::Misc { name: "verif" }
+    }
+    pub fn quarantine(&self, start: Address, pages: usize) -> Result<(), String> {
+        self.0
+            .quarantine_address_range(start, pages, HugePageSupport::No, &Self::anno())
+            .map_err(|e| format!("{:?}", e.error.kind()))
+    }
+    pub fn ensure_mapped(&self, start: Address, pages: usize) -> Result<(), String> {
+        self.0
+            .ensure_mapped(
+                start,
+                pages,
+                HugePageSupport::No,
+                MmapProtection::ReadWrite,
+                &Self::anno(),
+            )
+            .map_err(|e| format!("{:?}", e.error.kind()))
+    }
+    pub fn mark_as_mapped(&self, start: Address, bytes: usize) {
+        self.0.mark_as_mapped(start, bytes);
+    }
+    pub fn is_mapped_address(&self, addr: Address) -> bool {
+        self.0.is_mapped_address(addr)
+    }
+    /// 0 = unmapped, 1 = quarantined, 2 = mapped
+    pub fn chunk_state(&self, chunk: Address) -> u8 {
+        self.0.verif_chunk_state(chunk)
+    }
+    pub fn log_mappable_bytes(&self) -> u8 {
+        self.0.log_mappable_bytes()
+    }
+}
+
+unsafe impl Sync for VerifBlockPool {}
+unsafe impl Send for VerifBlockPool {}
+
+/// Map the side metadata of one global spec for the data range `[start, start + bytes)`.
+pub fn map_side_metadata(
+    spec: crate::util::metadata::side_metadata::SideMetadataSpec,
+    start: Address,
+    bytes: usize,
+) -> Result<(), String> {
+    let ctx = crate::util::metadata::side_metadata::SideMetadataContext {
+        global: vec![spec],
+        local: vec![],
+    };
+    ctx.try_map_metadata_space(start, bytes, "verif-comp")
+        .map_err(|e| format!("{:?}", e.error.kind()))
+}
